@@ -304,6 +304,9 @@ def datav(r, n, cls='r'):
 def check_C10(chk):
     exe = build_driver(chk.wd, 'prod')
     anchor_hash(chk, 0 if chk.thorough else 40)
+    # mode level: MDPH as a machine over permutation calls (two per block), with adversarial answers
+    import fam_mode
+    fam_mode.mode_stage(chk, 'hash')
     r = Rng(chk.seed ^ 0xC10)
     lens = list(range(0, 81)) + [95, 96, 97, 127, 128, 129, 255, 256, 257, 1023, 1024, 1025]
     if chk.thorough:
